@@ -308,7 +308,253 @@ def c12(res: Result):
     execute_and_validate(res, tasks, invs, "sets", nt)
 
 
-CHECKS = {"C01": c01, "C02": c02, "C03": c03, "C04": c04, "C05": c05, "C08": c08, "C12": c12, "C14": c14, "C20": c20}
+def c15(res: Result):
+    q = res.tier == Q
+    rng = random.Random(res.seed + 15)
+    ops = ["exp", "bfs", "dfs", "min", "tgt", "aseeds", "skipmin", "skiprem"]
+    invs_mc = ["Inv_WF", "Inv_PartialFaithful", "Inv_CacheFresh", "Inv_RetFalse", "Inv_MinExact", "Inv_FullExact"]
+    if q:
+        recs = run_mc(res, "limits", ops, 2, [0, 2], [1, 1000], invs_mc, 1, failats=[0, 1, 2])
+    else:
+        recs = run_mc(res, "limits", ops, 2, [0, 1, 2, 3], [0, 1, 2, 1000], invs_mc, 1, failats=[0, 1, 2, 3])
+    interesting = [r for r in recs if r["failat"] or r["maxm"] != 1000 or any(isinstance(x, int) and x >= 0 for h in r["hist"] for x in h[2:])]
+    tasks = tasks_from_emitted(interesting, rng, 1500 if q else 20000, "m")
+    # random networks: limited calls under small max_motifs_per_node, then the same call relaxed
+    pool = gen.network_pool(rng, 400 if q else 5000, [3, 3, 4, 4, 5] if q else [3, 4, 4, 5, 5, 6])
+    for i, tt in enumerate(pool):
+        cfg = {"maxm": rng.choice([0, 1, 2, 3, 100000, 100000]), "candlim": rng.choice([0, 1, 2, 100000]), "rsthr": 1000,
+               "simbudget": 1000, "nfvsthr": 2000}
+        tasks.append({"tid": f"r{i}", "tt": tt, "cfg": cfg, "hseed": rng.randrange(1 << 30),
+                      "kinds": gen.PLAIN_KINDS + ["skipmin", "skiprem", "minskip", "seeds", "cand", "sets"], "steps": rng.randint(2, 5),
+                      "tail": [FULL_BFS], "meta": "limits + resource-limit errors"})
+    # fault enumeration: every solver call of the last call fails once
+    fpool = gen.network_pool(rng, 150 if q else 2000, [3, 4, 4, 5])
+    for i, tt in enumerate(fpool):
+        pre = rng.choice([[], [{"op": "exp", "n": 1}], [{"op": "bfs", "n": 1, "lvl": 0, "size": -1}]])
+        last = rng.choice([FULL_BFS, FULL_DFS, {"op": "min", "n": 1, "size": -1, "skip": rng.random() < 0.5},
+                           {"op": "aseeds", "size": -1}, {"op": "tgt", "target": [rng.choice([0, 1, 2]) for _ in tt], "size": -1},
+                           {"op": "skiprem"}, {"op": "seeds", "n": 1}, {"op": "sets", "n": 1}])
+        if last["op"] == "tgt" and all(x == 2 for x in last["target"]):
+            last["target"][0] = 1
+        tasks.append({"tid": f"f{i}", "tt": tt, "ops": pre + [last], "faults": True, "meta": "fault enumeration"})
+    invs = ["Inv_RET", "Inv_STRUCT", "Inv_XL", "Inv_CACHE", "Inv_WF", "Inv_PartialFaithful", "Inv_CacheFresh", "Inv_RetFalse",
+            "Inv_MinExact", "Inv_FullExact", "Inv_HANG"]
+    res.cov["rule"] = ("(a) every abstract state of the TLC model under size/level/stack limits 0..3, max_motifs_per_node in {0,1,2,default} and the "
+                       "k-th solver call failing (k<=3) yields a history replayed in the library; (b) random histories under small resource limits "
+                       "followed by a full BFS; (c) fault enumeration: for each solver call k of a call, a run in which that call raises, followed by "
+                       "the same call without fault (resume). After every event TLC checks the diagram is a valid partial diagram with fresh caches, "
+                       "the return value is the one the model produces, True means the contract is complete and a size-limited False leaves a stub. "
+                       "Non-trivial: distinct histories containing a call that raised or returned False.")
+
+    def nt(tr):
+        return any(e["raised"] or e["ret"] == "false" for e in tr["events"])
+    execute_and_validate(res, tasks, invs, "limits", nt)
+
+
+# ------------------------------------------------------------------------------------------------
+# pure-function engine (PureTrace.tla) and stateless theorems (MC_Theorems.tla)
+# ------------------------------------------------------------------------------------------------
+def run_theorems(res: Result, invariants: list[str], netmode: str = "all2"):
+    wd = os.path.join(sdcheck.WORK, res.pid, "theorems")
+    shutil.rmtree(wd, ignore_errors=True)
+    os.makedirs(wd)
+    cfg = os.path.join(wd, "th.cfg")
+    tlc.write_cfg(cfg, invariants=invariants, constants={"NetMode": f'"{netmode}"'})
+    r = tlc.model_check("MC_Theorems", cfg, wd)
+    res.cov["states"] += r["distinct"]
+    res.cov["transitions"] += r["generated"]
+    res.cov["mc_runs"].append({"name": "theorems", "nets": netmode, "invariants": invariants, "distinct_states": r["distinct"],
+                               "ok": r["ok"], "wall_s": round(r["wall_s"], 1)})
+    if not r["ok"]:
+        for inv in r["violated"]:
+            res.violations.append(f"{r['log']}#model:{inv}")
+
+
+def run_pure(res: Result, tasks: list[dict], invariants: list[str], label: str, nontrivial_event):
+    import pure
+    wd = os.path.join(sdcheck.WORK, res.pid, "pure_" + label)
+    shutil.rmtree(wd, ignore_errors=True)
+    os.makedirs(wd)
+    tf = os.path.join(wd, "traces.ndjson")
+    pure.record_many(tasks, tf)
+    out = tlc.validate_traces(tf, "PureTrace", invariants + ["Inv_RAISED", "Inv_UNKNOWN"], wd)
+    traces = {}
+    for ln in open(tf):
+        tr = json.loads(ln)
+        traces[tr["tid"]] = tr
+    res.cov["traces_validated_against_impl"] += out["traces"]
+    res.cov["states"] += out["states"]            # TLC states of the trace validation runs
+    res.cov["transitions"] += out["generated"]
+    res.cov["trace_validation_states"] = res.cov.get("trace_validation_states", 0) + out["states"]
+    seen = set()
+    for tr in traces.values():
+        for e in tr["events"]:
+            res.cov["evaluations"] += 1
+            key = json.dumps([tr["net"]["f"], {k: v for k, v in e.items() if k not in ("res", "res1", "res2", "pn", "gtt", "ldoi", "drv")}])
+            if key not in seen:
+                seen.add(key)
+                if nontrivial_event(e):
+                    res.cov["distinct_nontrivial"] += 1
+    for tr in list(traces.values())[:2]:
+        res.cov["samples"].append({"tid": tr["tid"], "net": tr["net"], "events": tr["events"][:3]})
+    by = {}
+    for (inv, tid, l, op) in out["violations"]:
+        by.setdefault(tid, []).append((inv, l, op))
+    for k, (tid, vs) in enumerate(sorted(by.items())):
+        if k >= 25:
+            break
+        vd = os.path.join(sdcheck.WORK, res.pid, "violations", f"{label}_{tid}")
+        os.makedirs(vd, exist_ok=True)
+        tr = traces[tid]
+        json.dump(tr, open(os.path.join(vd, "trace.json"), "w"))
+        json.dump({"property": res.pid, "engine": "pure",
+                   "failing": [{"invariant": i, "event": l, "op": o, "call": tr["events"][l - 1]} for (i, l, o) in vs],
+                   "net": tr["net"]}, open(os.path.join(vd, "verdict.json"), "w"), indent=1)
+        res.violations.append(vd)
+
+
+def pure_tasks(rng, q, kinds, per_kind, sizes, count, exhaustive2=True, prefix="p"):
+    tasks = []
+    if exhaustive2:
+        for i, tt in enumerate(bn.all_networks(2)):
+            tasks.append({"tid": f"{prefix}a{i}", "tt": tt, "seed": rng.randrange(1 << 30), "kinds": kinds,
+                          "per_kind": per_kind, "exhaustive_small": True})
+    for i, tt in enumerate(gen.network_pool(rng, count, sizes)):
+        tasks.append({"tid": f"{prefix}r{i}", "tt": tt, "seed": rng.randrange(1 << 30), "kinds": kinds,
+                      "per_kind": per_kind, "exhaustive_small": q is False})
+    for name, tt in gen.gadget_networks().items():
+        if len(tt) <= 6:
+            tasks.append({"tid": f"{prefix}g{name}", "tt": tt, "seed": rng.randrange(1 << 30), "kinds": kinds,
+                          "per_kind": per_kind, "exhaustive_small": True})
+    return tasks
+
+
+def c09(res: Result):
+    q = res.tier == Q
+    rng = random.Random(res.seed + 9)
+    run_theorems(res, ["T_Rev", "T_Succ", "T_MinTrap"])
+    tasks = pure_tasks(rng, q, ["trappist", "reduced"], 12 if q else 60, [3, 3, 4, 4, 5] if q else [3, 4, 5, 5, 6], 400 if q else 4000)
+    res.cov["rule"] = ("trappist (min / max / fix, both time directions, enclosing subspace, 0-3 avoided subspaces, source-variable lists "
+                       "auto/none/explicit, solution limits none/0/1/2/3, Petri-net or network input) and compute_fixed_point_reduced_STG "
+                       "(random retained sets, enclosing and avoided subspaces incl. the empty one, limits) on all 256 two-variable networks and "
+                       "random 3-6 variable networks; TLC computes the requested set from the enumerated trap spaces of the network / its time "
+                       "reversal and compares (exact set without limit; duplicate-free subset of size min(count, limit) with limit). "
+                       "Non-trivial: distinct calls whose result has >= 2 elements or that use avoid / reverse time / limits.")
+    run_pure(res, tasks, ["Inv_TRAPPIST", "Inv_REDUCED"], "solver",
+             lambda e: len(e["res"]) >= 2 or e["rev"] or e["avoid"] or e["limit"] >= 0)
+
+
+def c10(res: Result):
+    q = res.tier == Q
+    rng = random.Random(res.seed + 10)
+    tasks = pure_tasks(rng, q, ["pn", "restrict", "percnet"], 8 if q else 40, [3, 3, 4, 4, 5] if q else [3, 4, 5, 5, 6], 400 if q else 4000)
+    res.cov["rule"] = ("network_to_petrinet, restrict_petrinet_to_subspace (also applied twice, as node_percolated_petri_net does) and "
+                       "percolate_network (with/without constant removal) on all two-variable and random 3-6 variable networks; TLC checks "
+                       "for every state of the subspace and every remaining variable that an up/down transition is enabled iff the update "
+                       "function disagrees with the current value in that direction, and that the variables are exactly those left free. "
+                       "Non-trivial: distinct calls on a proper subspace or with >= 4 transitions.")
+    run_pure(res, tasks, ["Inv_PN", "Inv_RESTRICT", "Inv_PERCNET"], "pn",
+             lambda e: len(e["pn"]) >= 4 or any(x != 2 for x in e["sp"]))
+
+
+def c11(res: Result):
+    q = res.tier == Q
+    rng = random.Random(res.seed + 11)
+    run_theorems(res, ["T_Perc"])
+    tasks = pure_tasks(rng, q, ["perc", "strict", "conflicts", "ldoi", "drivers"], 12 if q else 40,
+                       [3, 3, 4, 4, 5] if q else [3, 4, 5, 5, 6], 400 if q else 4000)
+    res.cov["rule"] = ("percolate_space, percolate_space_strict, percolation_conflicts, find_single_node_LDOIs and find_single_drivers on every "
+                       "subspace (trap space or not, consistent or conflicting) of all two-variable networks and gadgets, and random subspaces of "
+                       "random 3-6 variable networks; TLC computes the least fixed point of value propagation (given values kept) from the truth "
+                       "tables and compares; idempotence and trap preservation are checked on every result and as theorems on all subspaces of "
+                       "all two-variable networks. Non-trivial: distinct calls where propagation fixes at least one further variable or the space conflicts.")
+    run_pure(res, tasks, ["Inv_PERC", "Inv_PERCLAW", "Inv_STRICT", "Inv_CONFLICTS", "Inv_LDOI", "Inv_DRIVERS"], "perc",
+             lambda e: (e["k"] in ("perc", "strict") and sum(1 for x in e["res1"] if x != 2) > 0 and e["res1"] != e["sp"]) or bool(e["res2"]) or e["k"] in ("ldoi",))
+
+
+def run_control(res: Result, tasks, invariants, label, nontrivial_event):
+    import control
+    wd = os.path.join(sdcheck.WORK, res.pid, "ctl_" + label)
+    shutil.rmtree(wd, ignore_errors=True)
+    os.makedirs(wd)
+    tf = os.path.join(wd, "traces.ndjson")
+    control.record_many(tasks, tf)
+    out = tlc.validate_traces(tf, "ControlTrace", invariants + ["Inv_RAISED"], wd)
+    traces = {}
+    for ln in open(tf):
+        tr = json.loads(ln)
+        traces[tr["tid"]] = tr
+    res.cov["traces_validated_against_impl"] += out["traces"]
+    res.cov["states"] += out["states"]            # TLC states of the trace validation runs
+    res.cov["transitions"] += out["generated"]
+    res.cov["trace_validation_states"] = res.cov.get("trace_validation_states", 0) + out["states"]
+    seen = set()
+    for tr in traces.values():
+        for e in tr["events"]:
+            res.cov["evaluations"] += 1
+            key = json.dumps([tr["net"]["f"], e["target"], e["strategy"], e["bound"], e["forbidden"], e["sonly"], e["skipff"], e["hist"]])
+            if key not in seen:
+                seen.add(key)
+                if nontrivial_event(e):
+                    res.cov["distinct_nontrivial"] += 1
+    for tr in list(traces.values())[:2]:
+        res.cov["samples"].append({"tid": tr["tid"], "net": tr["net"], "events": tr["events"][:2]})
+    by = {}
+    for (inv, tid, l, op) in out["violations"]:
+        by.setdefault(tid, []).append((inv, l, op))
+    for k, (tid, vs) in enumerate(sorted(by.items())):
+        if k >= 25:
+            break
+        vd = os.path.join(sdcheck.WORK, res.pid, "violations", f"{label}_{tid}")
+        os.makedirs(vd, exist_ok=True)
+        tr = traces[tid]
+        json.dump(tr, open(os.path.join(vd, "trace.json"), "w"))
+        json.dump({"property": res.pid, "engine": "control",
+                   "failing": [{"invariant": i, "event": l, "call": tr["events"][l - 1]} for (i, l, o) in vs],
+                   "net": tr["net"]}, open(os.path.join(vd, "verdict.json"), "w"), indent=1)
+        res.violations.append(vd)
+
+
+def control_tasks(rng, q, with_history, count, sizes, calls):
+    tasks = []
+    nets = list(bn.all_networks(2))
+    for i, tt in enumerate(nets if not q else rng.sample(nets, 96)):
+        tasks.append({"tid": f"a{i}", "tt": tt, "seed": rng.randrange(1 << 30), "calls": calls, "with_history": with_history})
+    for i, tt in enumerate(gen.network_pool(rng, count, sizes, ["mixed", "sparse", "modular", "modular"])):
+        tasks.append({"tid": f"r{i}", "tt": tt, "seed": rng.randrange(1 << 30), "calls": calls, "with_history": with_history})
+    for name, tt in gen.gadget_networks().items():
+        if len(tt) <= 4:
+            tasks.append({"tid": f"g{name}", "tt": tt, "seed": rng.randrange(1 << 30), "calls": calls * 2, "with_history": with_history})
+    return tasks
+
+
+def c06(res: Result):
+    q = res.tier == Q
+    rng = random.Random(res.seed + 6)
+    tasks = control_tasks(rng, q, True, 300 if q else 4000, [3, 3, 4, 4] if q else [3, 4, 4, 5], 6 if q else 12)
+    res.cov["rule"] = ("succession_control on fresh diagrams and on diagrams already partially expanded / skipped / shortcut by random "
+                       "strategies, random non-empty targets (trap spaces or not), both strategies, driver bounds none/0/1/2/N, forbidden sets, "
+                       "skip_feedforward on/off. For every intervention reported successful TLC recomputes: the cumulative spaces are nested trap "
+                       "spaces, each listed override's LDOI contains the step's motif, and in the overridden network every attractor reachable "
+                       "from the previous trap space has the motif's values; the last space meets the target and all minimal trap spaces inside "
+                       "it are inside the target. Non-trivial: distinct calls that return at least one successful intervention with >= 1 step.")
+    run_control(res, tasks, ["Inv_C06", "Inv_FLAG"], "forces", lambda e: any(x["ok"] and x["succ"] for x in e["res"]))
+
+
+def c07(res: Result):
+    q = res.tier == Q
+    rng = random.Random(res.seed + 7)
+    tasks = control_tasks(rng, q, False, 300 if q else 4000, [3, 3, 4, 4] if q else [3, 4, 4, 5], 6 if q else 12)
+    res.cov["rule"] = ("succession_control on fresh diagrams (random non-empty targets, both strategies, bounds none/0/1/2/N, forbidden sets, "
+                       "successful_only on/off); TLC builds the expected answer from the full succession diagram of the truth tables: "
+                       "target-directed sub-diagram, end nodes, all root-to-end paths x all motifs per edge, and per step all inclusion-minimal "
+                       "driver variable sets (every forcing valuation) within bound and outside the forbidden set; the returned list must equal it "
+                       "as a set, with each succession once and the unsuccessful flag exactly when a step has no override. "
+                       "Non-trivial: distinct calls whose expected answer has at least one non-empty succession.")
+    run_control(res, tasks, ["Inv_C07", "Inv_FLAG"], "exact", lambda e: any(x["succ"] for x in e["res"]))
+
+
+CHECKS = {"C06": c06, "C07": c07, "C09": c09, "C10": c10, "C11": c11, "C15": c15, "C01": c01, "C02": c02, "C03": c03, "C04": c04, "C05": c05, "C08": c08, "C12": c12, "C14": c14, "C20": c20}
 
 
 def run(pid: str, tier: str, seed: int) -> int:
